@@ -335,6 +335,10 @@ SYN_INNER_NAMES = {
     ('PathArguments', 'AngleBracketed'): 'AngleBracketedGenericArguments',
     ('PathArguments', 'Parenthesized'): 'ParenthesizedGenericArguments',
     ('Stmt', 'Local'): 'Local', ('Stmt', 'Macro'): 'StmtMacro',
+    ('Meta', 'Path'): 'Path', ('Meta', 'List'): 'MetaList', ('Meta', 'NameValue'): 'MetaNameValue',
+    ('Pat', 'Path'): 'ExprPath', ('Pat', 'Lit'): 'ExprLit', ('Pat', 'Macro'): 'ExprMacro', ('Pat', 'Range'): 'ExprRange',
+    ('Pat', 'Const'): 'ExprConst', ('GenericParam', 'Type'): 'TypeParam', ('GenericParam', 'Lifetime'): 'LifetimeParam',
+    ('GenericParam', 'Const'): 'ConstParam', ('Visibility', 'Restricted'): 'VisRestricted',
 }
 
 
@@ -449,6 +453,11 @@ class Interp:
         self.depth = 0
         self.max_depth = 400
         self.hooks = {}   # name -> python callable for environment functions
+        from .models import tera as _T, misc as _M
+        self.hooks['__macro_template'] = _T.template_macro
+        self.hooks['env!'] = _M.env_macro
+        self.fs = None
+        self.templates_read = {}
 
     # -- entry points ------------------------------------------------------------------------
     def call_path(self, path, args, self_val=None):
@@ -556,7 +565,7 @@ class Interp:
         for i, s in enumerate(stmts):
             k = s['_']
             if k == 'Stmt::Local':
-                self.exec_local(s, env, ctx)
+                self.exec_local(s, env, ctx, stmts[i + 1:])
                 result = ()
             elif k == 'Stmt::Expr':
                 has_semi = s['1']['_'] == 'Some'
@@ -584,13 +593,15 @@ class Interp:
                 raise Inconclusive('unsupported statement %s' % k)
         return result
 
-    def exec_local(self, s, env, ctx):
+    def exec_local(self, s, env, ctx, following=()):
         pat = s['pat']
         ty = None
         if pat['_'] == 'Pat::Type':
             ty = pat['ty']
             pat = pat['pat']
         init = s['init']
+        if ty is None and init['_'] == 'Some' and pat['_'] == 'Pat::Ident' and self._needs_hint(init['0']['expr']):
+            ty = self.infer_from_use(pat['ident']['sym'], following, ctx)
         if init['_'] == 'None':
             # declared, assigned later
             for name in self.pat_names(pat):
@@ -607,6 +618,137 @@ class Interp:
             return
         if not self.match_pat(pat, v, env, ctx, irrefutable=True):
             raise Inconclusive('irrefutable let pattern failed to match: %r' % (v,))
+
+    @staticmethod
+    def _needs_hint(e):
+        while e['_'] in ('Expr::Try', 'Expr::Paren'):
+            e = e['expr']
+        if e['_'] == 'Expr::MethodCall' and e['method']['sym'] in ('collect', 'into', 'parse', 'unwrap_or_default', 'sum') \
+                and e['turbofish']['_'] == 'None':
+            return True
+        if e['_'] == 'Expr::Call' and e['func']['_'] == 'Expr::Path':
+            segs = path_segments(e['func']['path'])
+            if segs[-1] == 'default' and (len(segs) == 1 or segs[-2] == 'Default'):
+                return True
+        return False
+
+    def infer_from_use(self, name, stmts, ctx):
+        """type of a `let name = ...collect()` binding inferred from how `name` is used later
+        (return value, Ok(name), call argument, struct field); None if nothing conclusive"""
+        found = []
+
+        def is_name(e):
+            while e['_'] in ('Expr::Reference', 'Expr::Paren'):
+                e = e['expr']
+            return e['_'] == 'Expr::Path' and path_segments(e['path']) == [name]
+
+        def ret_unwrapped(kind):
+            h, a = type_head(ctx.ret)
+            if kind == 'Ok' and h == 'Result' and a:
+                return a[0]
+            if kind == 'Some' and h == 'Option' and a:
+                return a[0]
+            return None
+
+        def visit(e, tail):
+            if not isinstance(e, dict):
+                if isinstance(e, list):
+                    for x in e:
+                        visit(x, False)
+                return
+            k = e.get('_')
+            if k == 'Expr::Return' and e['expr']['_'] == 'Some':
+                visit(e['expr']['0'], True)
+                return
+            if tail and is_name(e):
+                found.append(ctx.ret)
+                return
+            if k == 'Expr::Call' and e['func']['_'] == 'Expr::Path':
+                segs = path_segments(e['func']['path'])
+                if len(segs) == 1 and segs[0] in ('Ok', 'Some') and e['args'] and is_name(e['args'][0]) and tail:
+                    t = ret_unwrapped(segs[0])
+                    if t is not None:
+                        found.append(t)
+                    return
+                fd = None
+                if len(segs) >= 2:
+                    ty = ctx.self_ty if segs[-2] == 'Self' else segs[-2]
+                    fd = self.prog.find_method(ty, segs[-1])
+                if fd is None:
+                    fd = self.prog.find_free(segs, ctx.module)
+                if fd is not None:
+                    args = e['args'][1:] if fd.has_self else e['args']
+                    for a, pt in zip(args, fd.params):
+                        if is_name(a):
+                            found.append(pt[1])
+            if k == 'Expr::MethodCall':
+                r = e['receiver']
+                if r['_'] == 'Expr::Path' and path_segments(r['path']) == ['self'] and ctx.self_ty:
+                    fd = self.prog.find_method(ctx.self_ty, e['method']['sym'])
+                    if fd is not None:
+                        for a, pt in zip(e['args'], fd.params):
+                            if is_name(a):
+                                found.append(pt[1])
+                if is_name(r):
+                    m = e['method']['sym']
+                    if m in ('join', 'push', 'sort', 'sort_by', 'dedup', 'first', 'last', 'pop', 'concat', 'windows', 'sort_by_key'):
+                        found.append(self._named_type('Vec'))
+                    elif m in ('contains_key', 'entry', 'keys', 'values'):
+                        found.append(self._named_type('HashMap'))
+                    elif m in ('push_str', 'as_str', 'trim', 'starts_with', 'chars'):
+                        found.append(self._named_type('String'))
+            if k == 'Expr::Struct':
+                sn = path_segments(e['path'])[-1]
+                if sn == 'Self':
+                    sn = ctx.self_ty
+                sd = self.prog.structs.get(sn)
+                if sd is not None and sd['fields']['_'] == 'Fields::Named':
+                    ft = {f['ident']['0']['sym']: f['ty'] for f in sd['fields']['named']}
+                    for fv in e['fields']:
+                        if fv['member']['_'] == 'Member::Named' and is_name(fv['expr']):
+                            t = ft.get(fv['member']['0']['sym'])
+                            if t is not None:
+                                found.append(t)
+            if k == 'Expr::Index' and is_name(e['expr']):
+                found.append(self._named_type('Vec'))
+            for kk, v in e.items():
+                if kk == '_':
+                    continue
+                if isinstance(v, (dict, list)):
+                    if k in ('Expr::If', 'Expr::Match', 'Expr::Block', 'Block', 'Arm', 'Expr::Paren') and tail:
+                        visit_tail(v)
+                    else:
+                        visit(v, False)
+
+        def visit_tail(v):
+            if isinstance(v, list):
+                for x in v:
+                    visit_tail(x)
+                return
+            if not isinstance(v, dict):
+                return
+            k = v.get('_')
+            if k == 'Block':
+                sts = v['stmts']
+                for j, st in enumerate(sts):
+                    if j == len(sts) - 1 and st['_'] == 'Stmt::Expr' and st['1']['_'] == 'None':
+                        visit(st['0'], True)
+                    else:
+                        visit(st, False)
+                return
+            visit(v, True)
+
+        sts = list(stmts)
+        for j, st in enumerate(sts):
+            if j == len(sts) - 1 and st['_'] == 'Stmt::Expr' and st['1']['_'] == 'None':
+                visit(st['0'], True)
+            else:
+                visit(st, False)
+        for t in found:
+            h, _ = type_head(t)
+            if h is not None and h not in ctx.fn.generics if ctx.fn else True:
+                return t
+        return None
 
     def pat_names(self, pat):
         k = pat['_']
@@ -933,6 +1075,9 @@ class Interp:
             if name in ('Some', 'Ok', 'Err'):
                 return FnRef(segs)
             if name == 'Self':
+                st = self.prog.structs.get(ctx.self_ty)
+                if st is not None and st['fields']['_'] == 'Fields::Unit':
+                    return Struct(ctx.self_ty, {})
                 return FnRef([ctx.self_ty])
             c = self.B.builtin_const(segs)
             if c is not None:
@@ -1469,6 +1614,8 @@ class Interp:
         ty = segs[-2]
         if ty == 'Self':
             ty = ctx.self_ty
+        if ty in prog.aliases:
+            ty = type_head(prog.aliases[ty])[0] or ty
         # enum variant constructor
         if ty in prog.enums:
             for vr in prog.enums[ty]['variants']:
